@@ -22,6 +22,8 @@ pub enum Op {
     Process { path: Path, slack_in: u8, slack_out: u8, mask: Option<u8> },
     /// frac None => process_partial(None); Some(f) => 1 + f*(need-2)/65535 frames (1..need-1)
     Partial { path: Path, frac: Option<u16>, slack_out: u8, mask: Option<u8> },
+    /// core-path equivalent of Partial: process_into_buffer on the same real frames zero-padded to the need
+    Padded { frac: Option<u16>, slack_out: u8, mask: Option<u8> },
     /// proposal: relative ratio max_rel^pos, pos in [-1,1]; mapped through the benign envelope for fixed-input kinds
     SetRatio { pos: f64, relative: bool, ramp: bool },
     /// literal value, bypasses the envelope (known-finding replays)
@@ -34,10 +36,10 @@ pub enum Op {
 
 impl Op {
     pub fn is_call(&self) -> bool {
-        matches!(self, Op::Process { .. } | Op::Partial { .. })
+        matches!(self, Op::Process { .. } | Op::Partial { .. } | Op::Padded { .. })
     }
     pub fn is_state_change(&self) -> bool {
-        matches!(self, Op::SetRatio { .. } | Op::SetRatioRaw { .. } | Op::SetChunk { .. } | Op::SetChunkRaw { .. } | Op::Reset | Op::Partial { .. })
+        matches!(self, Op::SetRatio { .. } | Op::SetRatioRaw { .. } | Op::SetChunk { .. } | Op::SetChunkRaw { .. } | Op::Reset | Op::Partial { .. } | Op::Padded { .. })
     }
 }
 
@@ -148,6 +150,8 @@ pub struct Interp<T: SampleX> {
     pub pos: u64,
     pub opts: HistOpts,
     pub cur_target: f64,
+    /// signal channel feeding each resampler channel (identity unless a single-channel twin)
+    pub ch_map: Vec<usize>,
 }
 
 impl<T: SampleX> Interp<T> {
@@ -155,10 +159,18 @@ impl<T: SampleX> Interp<T> {
         let b = build::<T>(cfg)?;
         let inbuf = b.res.in_alloc(true);
         let outbuf = b.res.out_alloc(true);
-        Ok(Interp { cfg: cfg.clone(), res: b.res, probe: b.probe, model: if opts.envelope { FiModel::new(cfg) } else { None }, inbuf, outbuf, pos: 0, opts: opts.clone(), cur_target: cfg.ratio })
+        Ok(Interp { cfg: cfg.clone(), res: b.res, probe: b.probe, model: if opts.envelope { FiModel::new(cfg) } else { None }, inbuf, outbuf, pos: 0, opts: opts.clone(), cur_target: cfg.ratio, ch_map: (0..cfg.channels).collect() })
+    }
+
+    /// wrap an already constructed resampler (e.g. one reached through Box<dyn VecResampler>)
+    pub fn from_res(cfg: &Config, opts: &HistOpts, res: Box<dyn DynRes<T>>) -> Interp<T> {
+        let inbuf = res.in_alloc(true);
+        let outbuf = res.out_alloc(true);
+        Interp { cfg: cfg.clone(), res, probe: None, model: if opts.envelope { FiModel::new(cfg) } else { None }, inbuf, outbuf, pos: 0, opts: opts.clone(), cur_target: cfg.ratio, ch_map: (0..cfg.channels).collect() }
     }
 
     fn sample(&self, sig: &Signal, ch: usize, n: u64) -> T {
+        let ch = self.ch_map[ch];
         T::of64(if self.opts.quant32 { sig.value32(ch, n) } else { sig.value(ch, n) })
     }
 
@@ -251,6 +263,45 @@ impl<T: SampleX> Interp<T> {
                             if tr.model_mismatch_at.is_none() {
                                 tr.model_mismatch_at = Some((i, p.n, *no));
                             }
+                        }
+                        m.after_process(&p);
+                    }
+                }
+                Some(())
+            }
+            Op::Padded { frac, slack_out, mask } => {
+                if let Some(m) = &self.model {
+                    if !m.benign() {
+                        tr.stuck = true;
+                        return None;
+                    }
+                }
+                let before = self.res.getters();
+                let need = before.in_next;
+                let mv = mask_vec(*mask, ch);
+                let active = |c: usize| mv.as_ref().map(|m| m[c]).unwrap_or(true);
+                let k = match frac {
+                    Some(f) if need >= 2 => 1 + ((*f as usize) * (need - 2)) / 65535,
+                    _ => 0,
+                };
+                for c in 0..ch {
+                    let mut v = std::mem::take(&mut self.inbuf[c]);
+                    v.clear();
+                    if active(c) {
+                        for j in 0..need {
+                            v.push(if j < k { self.sample(sig, c, self.pos + j as u64) } else { T::of64(0.0) });
+                        }
+                    }
+                    self.inbuf[c] = v;
+                }
+                let pred = self.model.as_ref().map(|m| m.predict());
+                let st = self.call(i, Path::Pib, false, before, mv, *slack_out, None, k, tr);
+                if let StepRes::Call(Ok((_, no))) = &st {
+                    self.pos += k as u64;
+                    if let (Some(m), Some(p)) = (self.model.as_mut(), pred) {
+                        tr.model_checked += 1;
+                        if p.n != *no {
+                            tr.model_mismatch += 1;
                         }
                         m.after_process(&p);
                     }
@@ -571,4 +622,37 @@ pub fn call_cost(c: &Config) -> f64 {
         _ => 60.0,
     };
     (fout * per + (fin + fout) * 8.0 + 200.0) * c.channels as f64
+}
+
+/// Run a constant-configuration stream through a fresh resampler until `want_out` output frames
+/// exist; returns channel 0 of the concatenated output.
+pub fn stream_out<T: SampleX>(cfg: &Config, sig: &Signal, want_out: usize) -> Result<Vec<T>, String> {
+    let mut b = build::<T>(cfg)?;
+    let res = &mut b.res;
+    let ch = cfg.channels;
+    let mut out: Vec<T> = Vec::with_capacity(want_out + 4096);
+    let mut inbuf: Vec<Vec<T>> = vec![Vec::new(); ch];
+    let mut outbuf: Vec<Vec<T>> = res.out_alloc(true);
+    let mut pos: u64 = 0;
+    let mut calls = 0usize;
+    while out.len() < want_out && calls < 4_000_000 {
+        let need = res.in_next();
+        for (c, v) in inbuf.iter_mut().enumerate() {
+            v.clear();
+            for n in 0..need {
+                v.push(T::of64(sig.value(c, pos + n as u64)));
+            }
+        }
+        let on = res.out_next();
+        for v in outbuf.iter_mut() {
+            if v.len() < on {
+                v.resize(on, T::of64(0.0));
+            }
+        }
+        let (ni, no) = res.pib(&inbuf, &mut outbuf, None).map_err(|e| format!("process_into_buffer failed: {}", e))?;
+        pos += ni as u64;
+        out.extend_from_slice(&outbuf[0][..no]);
+        calls += 1;
+    }
+    Ok(out)
 }
